@@ -32,7 +32,7 @@ SimNext ==
 SimSpec == SimInit /\ [][SimNext]_<<vars, hist>>
 \* print a session when it is over (nothing enabled any more is approximated by: all requests
 \* issued and Python idle/done), or when it reached the depth bound
-Over == nreq = MaxReq /\ py.mode \in {"idle", "done"}
+Over == py.mode = "done" \/ (nreq = MaxReq /\ py.mode = "idle")
 Emit == ~(Over \/ Len(hist) >= D) \/ PrintT(<<"BEH", hist>>)
 SimBound == ChanBound /\ ~Over /\ Len(hist) < D
 =========================================================================
